@@ -330,3 +330,76 @@ func C01_Wide() {
 	r.assertAgree("wide")
 	verif.Reach("compared")
 }
+
+// C01_LiteralOps: CONCRETE INSTANCES - every two-operator boolean expression
+// over the literal operand alphabet (each literal kind has its own opcode or
+// constant form), unparenthesised and with either operand pair parenthesised:
+// short-circuit code generation must not depend on which instruction happens
+// to end the left operand.
+func C01_LiteralOps() {
+	lits := []string{"true", "false", "nil", "0", "1", "\"\"", "\"s\"", "2", "0.0", "x", "z"}
+	ops := []string{"and", "or"}
+	if verif.Tier() == 0 {
+		lits = []string{"true", "false", "nil", "0", "1", "\"\"", "2", "x"}
+	}
+	a := lits[verif.Choice("a", len(lits))]
+	b := lits[verif.Choice("b", len(lits))]
+	c := lits[verif.Choice("c", len(lits))]
+	o1 := ops[verif.Choice("o1", 2)]
+	o2 := ops[verif.Choice("o2", 2)]
+	if verif.Tier() == 1 && verif.Choice("nota", 2) == 1 {
+		a = "not " + a
+	}
+	var e string
+	switch verif.Choice("paren", 3+verif.Tier()) {
+	case 0:
+		e = a + " " + o1 + " " + b + " " + o2 + " " + c
+	case 1:
+		e = "(" + a + " " + o1 + " " + b + ") " + o2 + " " + c
+	case 2:
+		e = a + " " + o1 + " (" + b + " " + o2 + " " + c + ")"
+	case 3:
+		e = "((" + a + ") " + o1 + " " + b + ") " + o2 + " (" + c + ")"
+	}
+	src := "var x = 7\nvar z = 0\nprint " + e + "\ndef t {\n f = " + e + "\n}\n"
+	r := runBoth(src, nil)
+	verif.Observe("out", r.Real.Out)
+	r.assertAgree("literal-ops")
+	verif.Reach("compared")
+}
+
+// C01_SlotOperands: the left operand is the variable in slot k-1 (symbolic int
+// value) / the k-th constant, for every k in the range: the value of an
+// expression must not depend on the slot or constant number of its operands.
+func C01_SlotOperands() {
+	max := 40
+	if verif.Tier() == 1 {
+		max = 300
+	}
+	k := 1 + verif.Choice("k", max)
+	src := "var w = 3\n"
+	for i := 1; i < k; i++ {
+		src += "var v" + itoa(i) + " = " + itoa(5000+i) + "\n"
+	}
+	src += "var last = 1001\n"
+	forms := []string{
+		"last and 99999",
+		"last or 99999",
+		"not last",
+		"last and (w = 4)",
+		"last or (w = 4)",
+		"88888 and last",
+		"(w = 0) or last",
+		"last == 0",
+		"last < 1",
+		"-last",
+		"last + 1",
+		"(last) and (last or 7)",
+	}
+	e := forms[verif.Choice("form", len(forms))]
+	src += "print " + e + "\nprint w\ndef t {\n f = " + e + "\n g = w\n}\n"
+	r := runBoth(src, map[string]any{"1001": verif.Int("a")})
+	verif.Observe("out", r.Real.Out)
+	r.assertAgree("slot-operands")
+	verif.Reach("compared")
+}
